@@ -383,7 +383,14 @@ func vf31Gen(t *rapid.T, typ reflect.Type, label string) reflect.Value {
 	case reflect.Uint8:
 		out.SetUint(uint64(rapid.Byte().Draw(t, label)))
 	case reflect.Uint16:
-		out.SetUint(uint64(rapid.Uint16().Draw(t, label)))
+		// a third of the 16-bit fields take values that mean something to the library (registered suite ids, versions,
+		// groups, signature schemes, GREASE): a conversion must not special-case them
+		if rapid.IntRange(0, 2).Draw(t, label+"_known") == 0 {
+			out.SetUint(uint64(rapid.SampledFrom([]uint16{0x1301, 0x1302, 0x1303, 0xc02b, 0xc02f, 0xc030, 0xcca8, 0xcca9, 0x009c, 0x002f, 0x000a, 0x00ff, 0x5600,
+				0x0301, 0x0302, 0x0303, 0x0304, 0x001d, 0x0017, 0x0018, 0x0019, 0x11ec, 0x6399, 0x0403, 0x0804, 0x0401, 0x0807, 0x0a0a, 0xfafa, 0, 0xffff}).Draw(t, label)))
+		} else {
+			out.SetUint(uint64(rapid.Uint16().Draw(t, label)))
+		}
 	case reflect.Uint32:
 		out.SetUint(uint64(rapid.Uint32().Draw(t, label)))
 	case reflect.Uint64:
